@@ -122,6 +122,15 @@ CLAIMED["C17"] = (
     "structural clauses of C17; LRU order values, the capacity bound, page-cache byte equality and staleness after invalidation are "
     "value/history-level and not decided (two such defects were found by probing and fixed, see DESIGN 10.3)",
     "DESIGN.md section 4 C17, section 3 R-ORDER / R-FLOW")
+CLAIMED["C07"] = (
+    "MIR taint/bit-width analysis of capacity guards (R-ARITH/R-GUARD), class-size provenance (R-CLASS), raw-owner-pointer escape + "
+    "compile-fail witnesses (R-OWN), must-consume analysis (R-LINEAR), who-may-drop-an-arena (R-ARENA)",
+    "static rules over MIR and borrow-checker witnesses: a capacity check cannot be wrapped by the request size; a block is carved at "
+    "the size of the class it is filed under; RAII guards are tied to their pool; a freed chunk is always handed back; a live arena is "
+    "never freed by an allocation path",
+    "five structural clauses of C07; disjointness and content retention themselves, alignment arithmetic and double-free detection "
+    "logic are value-level and not decided",
+    "DESIGN.md section 4 C07")
 NA = {
     "C11": "sortedness/permutation/multiset equality of loops over data for all inputs and configurations is value-level; no structural clause is a necessary condition short of the result itself",
     "C12": "lexicographic order of all suffixes, exact LCP and search ranges are value-level for every construction algorithm",
